@@ -463,6 +463,8 @@ class PoolGen:
             self.startup_burst()
         if self.cfg.get("onewallet"):
             self.shared_wallet_bursts()
+        if self.cfg.get("linkread"):
+            self.link_read_bursts()
         if self.cfg.get("staircase") and r.random() < 0.7:
             self.staircase()
         if self.cfg.get("unitsweep") is not None:
@@ -489,6 +491,18 @@ class PoolGen:
             reqs = [o for o in reqs if o["op"] != "Open"]
             for _ in range(3):
                 reqs.append({"op": "AddAccountBalance", "acct": "a1", "amt": r.choice([1, 3, 7])})
+            self.emit({"op": "Burst", "reqs": reqs})
+
+    def link_read_bursts(self):
+        """nodes that earned trial credit are linked to a wallet while their balance is being read: every read is the
+        balance before or the balance after"""
+        r = self.r
+        for n in r.sample(NODES, 3):
+            self.emit({"op": "AddNodeBalance", "id": n, "amt": r.choice([50, 500])})
+            acct = r.choice(ACCTS)
+            self.emit({"op": "AddAccountBalance", "acct": acct, "amt": r.choice([0, 7])})
+            reqs = [{"op": "GetNodeBalance", "id": n} for _ in range(r.choice([16, 24, 32]))]
+            reqs.insert(r.randrange(len(reqs)), {"op": "AddAccountNode", "acct": acct, "id": n})
             self.emit({"op": "Burst", "reqs": reqs})
 
     def ladder(self):
